@@ -3434,7 +3434,13 @@ func (n *EncapNLRI) decodeFromBytes(data []byte, options ...*MarshallingOption) 
 	default:
 		return NewMessageError(BGP_ERROR_UPDATE_MESSAGE_ERROR, BGP_ERROR_SUB_INVALID_NETWORK_FIELD, nil, "nlri length isn't valid")
 	}
-	addr, _ := netip.AddrFromSlice(data[1:])
+	// the address is exactly the declared length: data still holds the sibling
+	// NLRIs of the same attribute behind it, and may hold less than declared.
+	addrlen := int(data[0]) / 8
+	if len(data) < 1+addrlen {
+		return NewMessageError(BGP_ERROR_UPDATE_MESSAGE_ERROR, BGP_ERROR_SUB_INVALID_NETWORK_FIELD, nil, "nlri bytes is short")
+	}
+	addr, _ := netip.AddrFromSlice(data[1 : 1+addrlen])
 	n.Endpoint = addr
 	return nil
 }
